@@ -118,7 +118,7 @@ PL_RECS.update({'PlanDataT': r'^ffsm2::detail::PlanDataT<', 'PlanT': r'^ffsm2::d
                 'Iterator': r'^ffsm2::detail::PlanT<.*>::Iterator$', 'CIterator': r'^ffsm2::detail::PlanT<.*>::CIterator$', 'ArgsT': r'^ffsm2::detail::ArgsT<', 'TL_': r'^ffsm2::detail::TL_<A,B,C'})
 TC = 'PlanT__TASK_CAPACITY'
 PL_CONSTS = {'TaskListT__NCapacity': ('range', 1, CAPMAX), 'TaskLinks__NCapacity': ('expr', 'TaskListT__NCapacity'), 'Payloads__NCapacity': ('expr', 'TaskListT__NCapacity'),
-             'ArgsT__NTaskCapacity': ('expr', 'TaskListT__NCapacity'), 'TL___sizeof_Ts': ('range', 1, 255), 'TasksBits__NCapacity': ('range', 1, 255),
+             'ArgsT__NTaskCapacity': ('expr', 'TaskListT__NCapacity'), 'TL___sizeof_Ts': ('range', 1, 255), 'TasksBits__NCapacity': ('range', 1, 255), '__assume__': [],
              'G__NSubstitutionLimit': ('range', 1, 255)}
 PL_GHOST = TL_GHOST + ['''
 uint8_t g_k;        /* arbitrary position in the plan */
@@ -161,6 +161,9 @@ def pl(id_, target, fn, contract, cls=None, **kw):
              array_max={'TaskListT._items': CAPMAX, 'TaskLinks._items': CAPMAX, 'Payloads._items': CAPMAX, 'TasksBits._storage': 32},
              need_consts=['TaskListT.CAPACITY', 'PlanT.TASK_CAPACITY'], unwindset=dict(PL_UNWIND), contracts={fn: contract},
              bounded='task capacity <= %d (quick tier)' % CAPMAX)
+    extra = kw.pop('extra_contracts', None)
+    if extra:
+        u['contracts'] = dict(u['contracts'], **extra)
     sp = kw.pop('contracts_self', None)
     if sp:
         # the same contract for a class that holds the PlanT as a base sub-object
@@ -221,4 +224,59 @@ UNITS += [
     pl('op_bool', dict(name='operator bool', nparams=0), 'PlanT__op_bool', dict(
         requires=PL_SELF + [WF, '%s == %s' % (TC, CAP)], assigns=[],
         ensures=[('C10', '__CPROVER_return_value == (%s != 0)' % CNT)])),
+]
+
+# ---- iterators: begin at the first task, ++ moves to the cached next, which survives removal of the current task
+IPD = 'self->_plan->_planData'
+IT_SELF = [fresh('self'), fresh('self->_plan', '*self->_plan'), fresh(IPD, '*' + IPD), 'self->_plan->_bounds == &%s->tasksBounds' % IPD, 'pl_wf(%s)' % IPD, '%s == %s' % (TC, CAP), 'g_k < %d' % CAPMAX]
+def it_unit(id_, cls, target, fn, contract, **kw):
+    return pl(id_, target, fn, contract, cls=cls, **kw)
+IT = r'^ffsm2::detail::PlanT<.*>::Iterator$'
+UNITS += [
+    it_unit('Iterator.ctor', IT, dict(kind='ctor', name='Iterator', nparams=1), 'Iterator__ctor1', dict(
+        requires=[fresh('self'), fresh('plan'), fresh('plan->_planData', '*plan->_planData'), 'plan->_bounds == &plan->_planData->tasksBounds', 'pl_wf(plan->_planData)', '%s == %s' % (TC, CAP)],
+        assigns=['*self'],
+        ensures=[('C10', 'self->_plan == plan && self->_curr == pl_nth(plan->_planData, 0) && self->_next == pl_nth(plan->_planData, 1)')])),
+    it_unit('Iterator.op_bool', IT, dict(name='operator bool', nparams=0), 'Iterator__op_bool', dict(
+        requires=IT_SELF + ['self->_curr == pl_nth(%s, g_k)' % IPD], assigns=[],
+        # iteration ends exactly past the last task
+        ensures=[('C10', '__CPROVER_return_value == (g_k < %s->tasks._count)' % IPD)])),
+    it_unit('Iterator.op_inc', IT, dict(name='operator++', nparams=0), 'Iterator__op_inc', dict(
+        # the cached next is the task at position g_k (normally old position + 1; after it.remove() the task that moved up)
+        requires=IT_SELF + ['self->_next == pl_nth(%s, g_k)' % IPD], assigns=['self->_curr', 'self->_next'],
+        ensures=[('C10', 'self->_curr == pl_nth(%s, g_k) && self->_next == pl_nth(%s, (uint8_t)(g_k + 1))' % (IPD, IPD))])),
+    it_unit('Iterator.remove', IT, dict(name='remove', nparams=0), 'Iterator__remove', dict(
+        requires=IT_SELF + ['g_k < %s->tasks._count' % IPD, 'self->_curr == pl_nth(%s, g_k)' % IPD, 'self->_next == pl_nth(%s, (uint8_t)(g_k + 1))' % IPD],
+        assigns=['__CPROVER_object_whole(%s)' % IPD],
+        # removing through the iterator does not disturb iteration over the rest: the cached next is the task now at this position
+        ensures=[('C10', 'pl_wf(%s)' % IPD), ('C10', '%s->tasks._count == __CPROVER_old(%s->tasks._count) - 1' % (IPD, IPD)),
+                 ('C10', 'self->_next == pl_nth(%s, g_k)' % IPD)])),
+]
+
+CPD = 'self->_planData'
+CP_SELF = [fresh('self'), fresh(CPD, '*' + CPD), 'self->_bounds == &%s->tasksBounds' % CPD, 'pl_wf(%s)' % CPD, 'CPlanT__TASK_CAPACITY == ' + CAP]
+CP = r'^ffsm2::detail::CPlanT<.*>>$'
+def cp_unit(id_, target, fn, contract):
+    return pl(id_, target, fn, contract, cls=CP, need_consts=['TaskListT.CAPACITY', 'CPlanT.TASK_CAPACITY'])
+UNITS += [
+    cp_unit('CPlan.op_bool', dict(name='operator bool', nparams=0), 'CPlanT__op_bool', dict(requires=CP_SELF, assigns=[],
+            ensures=[('C10', '__CPROVER_return_value == (%s->tasks._count != 0)' % CPD)])),
+    cp_unit('CPlan.first', dict(name='first', nparams=0), 'CPlanT__first', dict(requires=CP_SELF + ['%s->tasks._count != 0' % CPD], assigns=[],
+            ensures=[('C10', '__CPROVER_return_value == &%s->tasks._items[pl_nth(%s, 0)]' % (CPD, CPD))])),
+    cp_unit('CPlan.last', dict(name='last', nparams=0), 'CPlanT__last', dict(requires=CP_SELF + ['%s->tasks._count != 0' % CPD], assigns=[],
+            ensures=[('C10', '__CPROVER_return_value == &%s->tasks._items[pl_nth(%s, (uint8_t)(%s->tasks._count - 1))]' % (CPD, CPD, CPD))])),
+    # PlanT::clear(): all tasks released, every task report dropped (loop over the state count closed by a loop contract)
+    pl('clear', dict(name='clear', nparams=0), 'PlanT__clear', dict(
+        requires=PL_SELF + [WF, '%s == %s' % (TC, CAP)],
+        assigns=['__CPROVER_object_whole(%s)' % PD],
+        ensures=[('C10', WF), ('C10', '%s == 0' % CNT), ('C09', '%s->planExists == __CPROVER_old(%s->planExists)' % (PD, PD)),
+                 ('C08', implies('g_q < PlanT__STATE_COUNT', bit('%s->tasksSuccesses._storage' % PD, 'g_q') + ' == 0 && ' + bit('%s->tasksFailures._storage' % PD, 'g_q') + ' == 0'))],
+        loops={0: dict(assigns=['i', '%s->tasksSuccesses' % PD, '%s->tasksFailures' % PD],
+                       invariant=['i <= PlanT__STATE_COUNT',
+                                  implies('g_q < i', bit('%s->tasksSuccesses._storage' % PD, 'g_q') + ' == 0 && ' + bit('%s->tasksFailures._storage' % PD, 'g_q') + ' == 0')],
+                       decreases='PlanT__STATE_COUNT - i')}),
+       extra_contracts={'PlanT__clearTasks': dict(requires=[], assigns=['__CPROVER_object_whole(self->_planData)'],
+                                                  ensures=['pl_wf(self->_planData)', 'self->_planData->tasks._count == 0', 'self->_planData->planExists == __CPROVER_old(self->_planData->planExists)'])},
+       calls={'PlanT__clearTasks': 'contract'}, need_consts=['TaskListT.CAPACITY', 'PlanT.TASK_CAPACITY', 'PlanT.STATE_COUNT', 'TasksBits.CAPACITY'],
+       consts=dict(PL_CONSTS, TasksBits__NCapacity=('expr', 'TL___sizeof_Ts'))),
 ]
